@@ -148,6 +148,8 @@ func (o op) coq() string {
 		return fmt.Sprintf("OFinish %d %s", o.T, []string{"Ok", "ErrNotApplied", "ErrApplied"}[o.Out])
 	case "wake":
 		return fmt.Sprintf("OWake %d", o.T)
+	case "members":
+		return "OMembers"
 	case "get":
 		return "OGet"
 	case "svc":
@@ -500,8 +502,10 @@ func (w *world) exec(o *op) string {
 		}
 		m := []kvx15.Mode{kvx15.Pass, kvx15.FailBefore, kvx15.FailAfter}[o.Out]
 		if x.via == 2 {
+			w.b.Disarm(x.who)
 			w.ek.Release(x.who, m)
 		} else {
+			w.ek.Arm(x.who, kvx15.Pass) // the Save below the kv.Base may itself be a transaction on the wrapped client
 			w.b.Release(x.who, m)
 		}
 		r := <-x.done
@@ -509,6 +513,8 @@ func (w *world) exec(o *op) string {
 		return respObs(r)
 	case "wake":
 		panic("wake is recorded by wakeBlocked, never executed")
+	case "members":
+		return "BUnit"
 	case "get":
 		r, err := w.x.S.GetGCSafePoint(w.ctx, &pdpb.GetGCSafePointRequest{Header: w.x.Header()})
 		noteErr(err)
